@@ -1,6 +1,6 @@
 (** C04 — whole-history simulation theorems, assembled from the per-heap refinement lemmas. *)
 From Coq Require Import Permutation Lia.
-From Algo.C04 Require Import Model Spec ProofsCommon ProofsBinary ProofsBinomial ProofsFib ProofsMaxDeg.
+From Algo.C04 Require Import Model Spec ProofsCommon ProofsBinary ProofsBinomial ProofsBinomialShape ProofsFib ProofsMaxDeg.
 
 Section Top.
   Context {K V : Type} (cmp : K -> K -> Z) (eqv : V -> V -> bool) (TO : TotalOrder K cmp).
@@ -38,7 +38,8 @@ Section Top.
   Qed.
 
   (** ** binomial heap *)
-  Definition hinv_bnm (h : heap K V) : Prop := match h with HN b => ninv cmp b | _ => False end.
+  Definition hinv_bnm (h : heap K V) : Prop :=
+    match h with HN b => ninv cmp b /\ nshape b | _ => False end.
   Definition hbag_bnm (h : heap K V) : bag K V := match h with HN b => nbag b | _ => [] end.
 
   Lemma act_ok_bnm h a :
@@ -46,9 +47,10 @@ Section Top.
     exists h' r, h_act K V cmp eqv a h = Ok (h', r) /\ hinv_bnm h' /\
                  spec_step K V cmp eqv (hbag_bnm h) a r (hbag_bnm h').
   Proof.
-    destruct h as [|b|]; simpl; try tauto. intros Hi Hn.
-    destruct (n_act_ok cmp eqv TO b a Hi Hn) as (b' & r & -> & Hi' & Hs). simpl.
-    exists (HN b'), r. auto.
+    destruct h as [|b|]; simpl; try tauto. intros [Hi Hsh] Hn.
+    destruct (n_act_ok cmp eqv TO b a Hi Hn) as (b' & r & Hact & Hi' & Hs).
+    pose proof (n_act_shape cmp eqv b a b' r Hsh Hact) as Hsh'. rewrite Hact. simpl.
+    exists (HN b'), r. split; [reflexivity|]. split; [split; assumption | exact Hs].
   Qed.
 
   Lemma merge_ok_bnm h hh :
@@ -56,9 +58,9 @@ Section Top.
     exists h', h_merge K V cmp h hh = Some h' /\ hinv_bnm h' /\
                Permutation (hbag_bnm h') (hbag_bnm h ++ hbag_bnm hh).
   Proof.
-    destruct h as [|a|], hh as [|b|]; simpl; try tauto. intros Ha Hb.
+    destruct h as [|a|], hh as [|b|]; simpl; try tauto. intros [Ha Hsa] [Hb Hsb].
     destruct (n_merge_heaps_ok cmp TO a b Ha Hb) as [Hi Hp].
-    eexists. split; [reflexivity|]. simpl. auto.
+    eexists. split; [reflexivity|]. simpl. split; [split; [exact Hi | now apply n_merge_heaps_shape] | exact Hp].
   Qed.
 
   Theorem binomial_simulates sizes ops :
@@ -72,7 +74,8 @@ Section Top.
     - apply act_ok_bnm.
     - intros _. apply merge_ok_bnm.
     - intros i h Hi. unfold p_init in Hi. rewrite nth_error_map in Hi.
-      destruct (nth_error sizes i); [|discriminate]. injection Hi as <-. apply ninv_new.
+      destruct (nth_error sizes i); [|discriminate]. injection Hi as <-.
+      split; [apply ninv_new | apply nshape_new].
     - unfold plive, p_init. rewrite map_map. exact Hws.
   Qed.
 
@@ -113,5 +116,46 @@ Section Top.
     - intros i h Hi. unfold p_init in Hi. rewrite nth_error_map in Hi.
       destruct (nth_error sizes i); [|discriminate]. injection Hi as <-. apply finv_new.
     - unfold plive, p_init. rewrite map_map. exact Hws.
+  Qed.
+
+  (** ** the invariants hold in every reachable state *)
+  Lemma init_pinv i (hinv : heap K V -> Prop) sizes :
+    (forall s, hinv (h_new K V i s)) -> pinv hinv (p_init K V i sizes).
+  Proof.
+    intros H j h Hj. unfold p_init in Hj. rewrite nth_error_map in Hj.
+    destruct (nth_error sizes j); [|discriminate]. injection Hj as <-. apply H.
+  Qed.
+
+  Lemma init_plive i sizes : plive (p_init K V i sizes) = all_live sizes.
+  Proof. unfold plive, p_init, all_live. now rewrite map_map. Qed.
+
+  Theorem binary_invariant sizes ops :
+    well_scoped K V false (all_live sizes) ops = true ->
+    forall i h, nth_error (p_final K V cmp eqv (p_init K V Binary sizes) ops) i = Some (Some h) -> hinv_bin h.
+  Proof.
+    intros Hws. apply (pool_invariant cmp eqv false hinv_bin hbag_bin act_ok_bin).
+    - discriminate.
+    - apply init_pinv. intros s. apply binv_new.
+    - now rewrite init_plive.
+  Qed.
+
+  Theorem binomial_invariant sizes ops :
+    well_scoped K V true (all_live sizes) ops = true ->
+    forall i h, nth_error (p_final K V cmp eqv (p_init K V Binomial sizes) ops) i = Some (Some h) -> hinv_bnm h.
+  Proof.
+    intros Hws. apply (pool_invariant cmp eqv true hinv_bnm hbag_bnm act_ok_bnm).
+    - intros _. apply merge_ok_bnm.
+    - apply init_pinv. intros s. split; [apply ninv_new | apply nshape_new].
+    - now rewrite init_plive.
+  Qed.
+
+  Theorem fibonacci_invariant sizes ops :
+    well_scoped K V true (all_live sizes) ops = true ->
+    forall i h, nth_error (p_final K V cmp eqv (p_init K V Fibonacci sizes) ops) i = Some (Some h) -> hinv_fib h.
+  Proof.
+    intros Hws. apply (pool_invariant cmp eqv true hinv_fib hbag_fib act_ok_fib).
+    - intros _. apply merge_ok_fib.
+    - apply init_pinv. intros s. apply finv_new.
+    - now rewrite init_plive.
   Qed.
 End Top.
